@@ -2,11 +2,11 @@
 # usage: mut_test.sh <patch.diff> <check-id> [extra check args]  — applies a seeded change to the scratch tree /tmp/wk/me
 # (synchronised to /repo HEAD), REBUILDS its library (native replays link it), runs the check against it, restores the tree.
 p=$(readlink -f "$1"); id=$2; shift 2
-exec 9>/tmp/wk/me.lock; flock 9      # one seeded change at a time in the shared scratch tree
-cd /tmp/wk/me || exit 9
+T=${MUT_TREE:-/tmp/wk/me}; exec 9>$T.lock; flock 9      # one seeded change at a time per scratch tree
+cd $T || exit 9
 git checkout -q -- . ; git checkout -q --detach $(git -C /repo rev-parse HEAD)
 if ! git apply "$p" 2>/dev/null; then patch -p1 -F3 < "$p" | tail -1; fi
 git diff --stat | tail -1
 # no rebuild needed: native replays use libraries built from the tree's sources by vf/core.repo_libs()
-cd /verif && VF_REPO=/tmp/wk/me timeout 3000 ./check $id "$@" 2>&1 | grep -v "^  \[ir\|^  \[nat" | tail -8
-cd /tmp/wk/me && git checkout -q -- . && find . -name "*.rej" -o -name "*.orig" | xargs rm -f
+cd /verif && VF_REPO=$T timeout 3000 ./check $id "$@" 2>&1 | grep -v "^  \[ir\|^  \[nat" | tail -8
+cd $T && git checkout -q -- . && find . -name "*.rej" -o -name "*.orig" | xargs rm -f
